@@ -49,9 +49,10 @@ def bound_params(f):
 
 
 class ValFlow:
-    def __init__(self, f, sources=None):
+    def __init__(self, f, sources=None, field_sources=()):
         self.f = f
         self.env = {}
+        self.field_src = set(field_sources)      # local ids whose FIELD reads are sources of their own (`p.x`, `p.is_id`)
         src = bound_params(f) if sources is None else sources
         self.sources = src
         for n, i, t in src:
@@ -98,7 +99,12 @@ class ValFlow:
             if k == 'break' and 'e' in n:
                 return self.ev(n['e'])
             return E
-        if k in ('ref', 'un', 'cast', 'try', 'stmt', 'field'):
+        if k == 'field':
+            b = peel(n['e'])
+            if b.get('k') == 'local' and b.get('i') in self.field_src:
+                return frozenset([f"{b['n']}.{n['n']}"])
+            return self.ev(n['e'])
+        if k in ('ref', 'un', 'cast', 'try', 'stmt'):
             return self.ev(n['e'])
         if k == 'semi':
             self.ev(n['e'])
